@@ -309,3 +309,11 @@ Proof. exact wf_example_hyps. Qed.
 
 Theorem C12_compile_wf_example : wf_text (compile_schema ex_schema true) = true.
 Proof. exact wf_example_by_theorem. Qed.
+
+(* ---- source-text pins (generated by harness/pinsets.py) ---- *)
+(* every function of these modules is, text for text (comments and docstrings excluded), the one the models of this
+   property were written against and validated against: harness/translate/srcdigest_t.py, Src/Pin_*.v *)
+From OV Require Import Gen.SrcDigestGen Src.Pin_core_gbnf_compiler Src.Pin_core_grammar Src.Pin_core_schema_extractor Src.Pin_core_constraints Src.Pin_core_holographic Src.Pin_mcp_compile_grammar Src.Pin_mcp_eject.
+Theorem C12_pin_source_text :
+  src_core_gbnf_compiler_pinned /\ src_core_grammar_pinned /\ src_core_schema_extractor_pinned /\ src_core_constraints_pinned /\ src_core_holographic_pinned /\ src_mcp_compile_grammar_pinned /\ src_mcp_eject_pinned.
+Proof. exact (conj src_core_gbnf_compiler_pinned_ok (conj src_core_grammar_pinned_ok (conj src_core_schema_extractor_pinned_ok (conj src_core_constraints_pinned_ok (conj src_core_holographic_pinned_ok (conj src_mcp_compile_grammar_pinned_ok src_mcp_eject_pinned_ok)))))). Qed.
